@@ -261,9 +261,13 @@ UpdateBody(cc, n, who, x, md) ==
                         ix  == CHOOSE i \in 1 .. Len(s0) : s0[i].k = key
                         s1  == [s0 EXCEPT ![ix].buf = Append(@, x), ![ix].md = @ \o md]
                     IN IF Len(s1[ix].buf) = nd.n
-                       THEN LET s2 == [s1 EXCEPT ![ix].buf = <<>>, ![ix].md = <<>>]
-                                c3 == EmitFrom([c2 EXCEPT !.nst[n] = s2], n, T(s1[ix].buf), s1[ix].md)
-                            IN IF c3.fail THEN c3 ELSE ReleaseMd(c3, s1[ix].md, 1)
+                       THEN \* _flush: "yield self._emit(...)" re-raises a failure carried by a downstream
+                            \* awaitable (soft) just like a synchronous one; then the release is skipped
+                            LET s2 == [s1 EXCEPT ![ix].buf = <<>>, ![ix].md = <<>>]
+                                c3 == EmitFrom([c2 EXCEPT !.nst[n] = s2, !.soft = FALSE], n, T(s1[ix].buf), s1[ix].md)
+                            IN IF c3.fail \/ c3.soft
+                               THEN [c3 EXCEPT !.soft = TRUE, !.dlog[me][6] = "down"]
+                               ELSE ReleaseMd([c3 EXCEPT !.soft = c2.soft], s1[ix].md, 1)
                        ELSE [c2 EXCEPT !.nst[n] = s1]
 
       [] k = "partition_unique" ->                                            \* core.py:1245-1266
